@@ -27,8 +27,61 @@ META = {
     'components_stub': ['boto3 / S3 (in-memory bucket with paging)', 'uuid / clock'],
     'budgets': {'quick': {'seconds': 25}, 'thorough': {'seconds': 420}},
     'required_probes': {'thorough': ['cassette_memory', 'cassette_file', 'cassette_s3', 's3_empty_prefix', 'restart', 'unknown_id', 'metadata_only_fetch',
-                                     'shared_subobject', 'odd_key_text']},
+                                     'shared_subobject', 'odd_key_text', 'concurrent_saves']},
 }
+
+
+def concurrent_saves(run, tape, clock, store, flavour):
+    """Several threads of one process (request handlers of a service) save their recordings through one cassette
+    object at the same time, under the seeded line-level scheduler; every recording must still round-trip."""
+    import os
+    from simkit import REPO
+    from simkit.sim import Sim, SimDeadlock
+    sim = Sim(tape, run, preempt_p=tape.choice([0.05, 0.2, 0.5]), target_prefixes=[os.path.join(REPO, 'playback', 'tape_cassettes'),
+                                                                                  os.path.join(REPO, 'playback', 'tape_cassette.py')], max_steps=100000)
+    cas = store.open()
+    jobs = []
+    for n in range(2 + tape.draw(2)):
+        data, metadata = gen_recording(tape, run, flavour)
+        if V.doc_faithful({'d': data, 'm': metadata}):
+            jobs.append((tape.choice(S.CATEGORIES), data, metadata))
+    saved = {}
+    run.probe('concurrent_saves')
+
+    def saver(cat, data, metadata):
+        def body():
+            r = cas.create_new_recording(cat)
+            for k, v in data.items():
+                r.set_data(k, v)
+            r.add_metadata(metadata)
+            try:
+                cas.save_recording(r)
+                saved[r.id] = (data, metadata, None)
+            except Exception as ex:
+                saved[r.id] = (data, metadata, ex)
+        return body
+
+    def main():
+        tasks = [sim.spawn(saver(*j), name='saver%d' % n) for n, j in enumerate(jobs)]
+        for t in tasks:
+            sim.join(t)
+    try:
+        sim.run_main(main)
+    except SimDeadlock as ex:
+        run.violate('fetch_saved', 'deadlock', str(ex))
+        return
+    run.nontrivial = sim.switches > len(jobs) + 1
+    reader = store.open(read_only=True)
+    for rid in sorted(saved):
+        data, metadata, err = saved[rid]
+        if err is not None:
+            run.violate('fetch_saved', 'concurrent-save-raised:%s' % type(err).__name__, 'save_recording(%s) raised %r while another thread was saving another recording' % (rid, err))
+            continue
+        try:
+            compare(run, 'after concurrent saves', rid, reader.get_recording(rid), data, metadata)
+        except Exception as ex:
+            run.violate('fetch_saved', 'get-raised:%s' % type(ex).__name__, 'get_recording(%s) after concurrent saves raised %r' % (rid, ex))
+    run.ev('concurrent', store.describe(), sorted(saved), sim.switches)
 
 
 def run_tape(tape):
@@ -36,6 +89,12 @@ def run_tape(tape):
         run = Run(PROP)
         flavour = V.set_flavour(tape)
         store = C.gen_store(tape, clock, nonempty_prefix=False)
+        if tape.draw(5) == 4:
+            try:
+                concurrent_saves(run, tape, clock, store, flavour)
+            finally:
+                store.close()
+            return run
         run.probe('cassette_' + store.kind)
         if store.kind == 's3' and store.key_prefix == '':
             run.probe('s3_empty_prefix')
